@@ -26,6 +26,12 @@ def ev_cfg(maxops, maxid=3, prios=(0, 1)):
 
 
 def replay_events(ctx, hist, origin):
+    # every history is replayed with two bindings of the result of the Returning callback: its name (truthy) and 0 (falsy but
+    # not None) -- emit_until_result is documented to stop at the first result that `is not None`
+    return all([_replay_events(ctx, hist, origin, rv) for rv in ('r', 0)])
+
+
+def _replay_events(ctx, hist, origin, rv):
     from tenpy.tools.events import EventHandler
     calls = []
     cur = {}
@@ -37,7 +43,7 @@ def replay_events(ctx, hist, origin):
             calls.append([name, kw.get('tag', 0)])
             if name == 'o':   # a one-shot listener: disconnects itself from the handler that is emitting
                 cur['h'].disconnect(own['id'])
-            return name if name == 'r' else None
+            return rv if name == 'r' else None
         cb.__name__ = name
         return cb, own
     H = {1: EventHandler()}
@@ -71,7 +77,7 @@ def replay_events(ctx, hist, origin):
                 del calls[:]
                 cur['h'] = H[l['h']]
                 res = H[l['h']].emit_until_result()
-                got = dict(calls=[list(c) for c in calls], result='None' if res is None else res)
+                got = dict(calls=[list(c) for c in calls], result='None' if res is None else ('r' if res is rv else res))
                 exp = dict(calls=[list(c) for c in l['calls']], result=l['result'])
             elif op == 'copy':
                 H[2] = H[1].copy()
@@ -86,10 +92,10 @@ def replay_events(ctx, hist, origin):
             else:
                 proj[h] = []
         spec_conn = {h: sorted(list(x) for x in o['connected'][h - 1]) for h in (1, 2)}
-        ctx.case(('ev', origin, n, repr(l)), action='Events.' + op)
+        ctx.case(('ev', origin, n, repr(l), rv), action='Events.' + op)
         if got != exp or proj != spec_conn:
             clause = 'result' if got != exp else 'connected-set'
-            ctx.violation(dict(kind='replay', spec='Events', op=op, clause=clause),
+            ctx.violation(dict(kind='replay', spec='Events', op=op, clause=clause, returning=repr(rv)),
                           dict(step=n, hist=tlaval.to_jsonable(hist), got=got, expected=exp, impl_connected=proj,
                                spec_connected=spec_conn))
             return False
